@@ -6,12 +6,13 @@ if len(sys.argv) > 1:
     for line in open(sys.argv[1]):
         m = re.match(r'(\S+) patch=(\S+)(?: demo_clean=(\d+) demo_mutant=(\d+) checks:(.*))?', line.strip())
         if m:
-            res.setdefault(m.group(1), {}).update({"patch": m.group(2), "demo_clean": m.group(3), "demo_mutant": m.group(4),
-                                   "checks": dict(x.split("=") for x in (m.group(5) or "").split())})
+            e = res.setdefault(m.group(1), {"checks": {}})
+            e.update({"patch": m.group(2), "demo_clean": m.group(3), "demo_mutant": m.group(4)})
+            e["checks"].update(dict(x.split("=") for x in (m.group(5) or "").split()))
 head = subprocess.check_output(["git", "-C", "/repo", "rev-parse", "HEAD"], text=True).strip()
 for name in sorted(os.listdir("/verif/seeded")):
     d = os.path.join("/verif/seeded", name)
-    if not os.path.isdir(d): continue
+    if not os.path.isdir(d) or name.startswith("_"): continue
     notes = open(os.path.join(d, "notes.md")).read() if os.path.exists(os.path.join(d, "notes.md")) else ""
     lines = [l for l in notes.splitlines() if l.strip()]
     summary = lines[0].lstrip("# ").strip() if lines else ""
